@@ -89,6 +89,10 @@ UNSUPPORTED = {
                     "LOCK TABLE t IN EXCLUSIVE MODE;", "REINDEX TABLE t;", "OPTIMIZE TABLE t;", "DROP INDEX ix;", "DROP SCHEMA s;",
                     "DROP DATABASE d;", "DROP SEQUENCE q;", "ALTER INDEX ix RENAME TO iy;", "ALTER SEQUENCE q RESTART WITH 1;",
                     "CREATE EXTENSION hstore;"],
+    # an unsupported statement over several lines whose LAST line starts with one of the ignored-line words
+    "multiline_ending_in_ignored_line": ["WITH x AS (SELECT 1 AS id)\nINSERT INTO t SELECT id FROM x;", "EXPLAIN\nDELETE FROM t WHERE id = 1;",
+                                         "EXPLAIN ANALYZE\nINSERT INTO t VALUES (1);", "WITH y AS (SELECT 2)\nDELETE FROM t;",
+                                         "CREATE RULE r AS ON INSERT TO t DO\nINSERT INTO log VALUES (1);"],
     # an unsupported statement behind a stray statement terminator on the same line
     "stray_semicolon": ["; SELECT 1;", "; WITH x AS (SELECT 1) SELECT * FROM x;", "; COMMIT;", "; UPDATE t SET a = 1;", ";; SELECT 2;", ";SELECT 1;"],
     # malformed statements with unbalanced parentheses (they leave lp_open / last_par set in the lexer)
